@@ -23,6 +23,13 @@ group 2-3 such fragments) -, and two mapped pairs a site-bearing class rejects (
 the molecule iterator hands rejected fragments out as molecules and the tagger requests their consensus unless
 --no_rejects is given.  write_pysam's consensus_read_callback option (without / with kwargs) on all one-letter words.
 Nothing is demanded about the strand flag or the DS tag of a molecule without strand / site.
+Placement (audit wave 4): every word above also on a contig that IS the stretch [first CATG .. last CATG] (chr3 / chr4 of the
+reference file): forward molecules cover reference coordinate 0, reverse molecules the last base of the contig - all classes,
+all apis incl. the command line (quick: words of <= 2 letters, thinner configurations for two letters; thorough: everything).
+Insertion orders (audit wave 4): the words are multisets enumerated simplest letter first; additionally both orders of every
+two-fragment word (thorough: all distinct orders of three-fragment words) and, with a SECOND alternative base at the mismatch
+position (q10 / q20 / q30), every ordered word of 2..3 conflict letters that observes one position with three different bases
+(the two errors first and the true base last, ...), through deduplicate_majority, write_pysam, the tagger and the command line.
 
 Oracle (from the property text): union of aligned blocks == union of read coverage (records disjoint);
 len(seq) == len(qual) == query length of the CIGAR; reference rebuilt from MD == true reference on the aligned
@@ -38,18 +45,26 @@ import tempfile
 
 from mc.bind import HarnessError
 from gen import c13_reads as G
+from gen import c15_reads as H
 
 ID = 'C15'
 DESIGN_REF = 'DESIGN.md section 3, C15'
 RULE = ('every multiset of <= K fragment letters (mate gap x variant x R1 length; variants include an unmapped R2, a '
-        'deletion and a soft clip in R1) x strand x molecule class x '
+        'deletion and a soft clip in R1) x strand x placement on the contig (interior / first base = coordinate 0 resp. last '
+        'base = end of the contig; quick: words of <= 2 letters there) x molecule class x '
         'max_N_span x api (deduplicate_majority / write_pysam read back [+ consensus_read_callback] / run_tagging_task '
         'consensus_mode=majority) x source reads on/off; plus the solo letters (R1 unmapped = strand-less molecule; pairs '
         'rejected by a site-bearing class) as one-fragment molecules through every api and, for the plain classes, every '
-        'multiset of <= 2 (thorough 3) strand-less fragments; a case is non-trivial when the coverage has a gap or some '
+        'multiset of <= 2 (thorough 3) strand-less fragments; insertion orders: two-fragment words in both orders (thorough: '
+        'every distinct order of three-fragment words too) and EVERY ordered word of 2..3 conflict letters (reference base / '
+        'first / second alternative base at q10..q60 at one position) that shows >= 3 different bases at one position, through '
+        'every api incl. the command line; a case is non-trivial when the coverage has a gap or some '
         'position carries conflicting observations (solo cases always); states = distinct cases')
 ASSUMPTIONS = [
-    'bases ACGT with phred 10 or 30 (at these qualities a unanimous observation is more likely than "N")',
+    'bases ACGT with phred 10 or 30 (at these qualities a unanimous observation is more likely than "N"); phred 20 on the second alternative base, 50 / 60 on two letters',
+    'a position observed with three different bases: a base whose sorted quality list dominates that of every other base is THE most likely call under any model monotone in the evidence; '
+    'two bases with identical evidence that each dominate the third are equally most likely (undecidable, N); every other constellation is left open',
+    'the consensus of a molecule does not depend on the order in which its fragments were associated (the property speaks of the molecule\'s reads, not of a history)',
     'all fragments of a molecule share sample, UMI and cut site; mapped reads map to one contig (at most one insertion, one-base deletion or soft clip per read)',
     'max_N_span = largest run of uncovered reference a single record may skip (parameter name); larger gaps split the molecule into several records',
     'TR = number of distinct random-primer (R2 start coordinate, primer sequence) classes, single-end fragments forming one class',
@@ -67,7 +82,28 @@ S_REV = 60          # CATG the reverse molecules end with
 R2_LEN = 6
 SAMPLE, UMI, BC = 'CELL_7', 'CAT', 'ACGT'
 Q_HI, Q_LO = 30, 10
+Q_MID = 20          # only on the second alternative base (variant mm1mid2)
 MAX_N_SPAN = 5
+# placement of the molecules on their contig: in the interior (chr1 / chr2: 16 bases of flank on either side) or, place
+# 'edge', on a contig that IS the stretch [first CATG .. last CATG] (chr3 / chr4): the forward molecules start on reference
+# coordinate 0, the reverse molecules end on the last base of the contig
+EDGE_OFF = S_FWD
+EDGE = REF[S_FWD:S_REV + 4]
+EDGE_FASTA = REF_FASTA[S_FWD:S_REV + 4]
+PLACES = (None, 'edge')
+
+
+def _ref(place):
+    return EDGE if place == 'edge' else REF
+
+
+def _contig(place, strand=False, cli=False):
+    """api cases: chr1 / chr3; a command-line batch: forward molecules chr1 / chr3, reverse molecules chr2 / chr4"""
+    return H.CONTIGS[(2 if place == 'edge' else 0) + (1 if (cli and strand) else 0)]
+
+
+def _header():
+    return H.header(len(REF), len(EDGE))
 
 _STATE = {'dir': None, 'fasta_path': None, 'fasta': None, 'fasta_pid': None, 'owner': None}
 
@@ -77,11 +113,13 @@ def setup():
     import pysam
     if [i for i in range(len(REF)) if REF[i:i + 4] == 'CATG'] != [S_FWD, S_REV]:
         raise HarnessError('reference layout broken')
+    if not (EDGE.startswith('CATG') and EDGE.endswith('CATG') and len(EDGE) == S_REV + 4 - S_FWD):
+        raise HarnessError('edge contig layout broken')
     d = tempfile.mkdtemp(dir='/dev/shm', prefix='c15_')
     path = os.path.join(d, 'ref.fa')
     with open(path, 'w') as f:
         # the file is soft-masked like the usual genome builds: a lower-case stretch between the two cut sites
-        f.write('>chr1\n' + REF_FASTA + '\n>chr2\n' + REF_FASTA + '\n')
+        f.write('>chr1\n' + REF_FASTA + '\n>chr2\n' + REF_FASTA + '\n>chr3\n' + EDGE_FASTA + '\n>chr4\n' + EDGE_FASTA + '\n')
     pysam.faidx(path)
     _STATE.update(dir=d, fasta_path=path, owner=os.getpid())
     atexit.register(_cleanup)
@@ -111,8 +149,25 @@ def _alt(base):
     return 'T' if base != 'T' else 'A'
 
 
-def _letter_fragment(letter, strand):
-    """letter = [gap | None, variant, r1_len]; variant in clean / mm1hi / mm1lo / mm2 / ins1"""
+def _alt2(base):
+    """a SECOND alternative base: differs from the reference base and from _alt(base)"""
+    return 'C' if base not in ('C',) and _alt(base) != 'C' else 'G'
+
+
+def _letter_fragment(letter, strand, place=None):
+    """letter = [gap | None, variant, r1_len]; variant in clean / mm1hi / mm1lo / mm2 / ins1 / ...; place 'edge': the same
+    fragment on the contig that starts with the first and ends with the last CATG (all coordinates lower by EDGE_OFF)"""
+    fd = _letter_fragment_interior(letter, strand)
+    if place == 'edge':
+        for rd in (fd['r1'], fd.get('r2')):
+            if rd is not None:
+                rd['start'] -= EDGE_OFF
+                if rd['start'] < 0 or (not rd.get('unmapped') and G.reference_end(rd) > len(EDGE)):
+                    raise HarnessError(f'letter {letter} does not fit on the edge contig')
+    return fd
+
+
+def _letter_fragment_interior(letter, strand):
     gap, variant, l1 = letter
     if not strand:
         a = S_FWD
@@ -133,6 +188,11 @@ def _letter_fragment(letter, strand):
     if variant in ('mm1hi', 'mm1lo'):
         r1['seq'][mm1] = _alt(r1['seq'][mm1])
         r1['quals'][mm1] = Q_HI if variant == 'mm1hi' else Q_LO
+    if variant in MM1_SECOND:
+        # the mismatch position shows a SECOND alternative base (a different error): with the mm1* letters and a clean
+        # fragment a position is observed with three different bases
+        r1['seq'][mm1] = _alt2(r1['seq'][mm1])
+        r1['quals'][mm1] = MM1_SECOND[variant]
     if variant == 'mm1q60':
         # a mismatch called at phred 60: against a phred-50 observation of the other base it still dominates
         r1['seq'][mm1] = _alt(r1['seq'][mm1])
@@ -192,6 +252,7 @@ def _letter_fragment(letter, strand):
     return {'r1': r1, 'r2': r2}
 
 
+MM1_SECOND = {'mm1lo2': Q_LO, 'mm1mid2': Q_MID, 'mm1hi2': Q_HI}     # variant -> quality of the second alternative base
 STRANDLESS = ('r1un', 'r1un_mm2')                 # variants whose R1 is unmapped
 ODD_PAIRS = ('offsite', 'sameori')                # mapped pairs one of the site-bearing classes rejects
 SOLO = STRANDLESS + ODD_PAIRS                     # letters that are never mixed with the ordinary ones
@@ -215,37 +276,23 @@ def _mapped(rd):
     return rd is not None and not rd.get('unmapped')
 
 
-def _build_read(rd, name, is_read1, paired, tags, mate=None):
-    """gen.c13_reads.build_read plus the unmapped mate of a mapped read (own copy, the shared helper is not edited)"""
-    import pysam
+def _build_read(rd, name, is_read1, paired, tags, mate=None, place=None):
+    """gen.c15_reads.build_read plus the unmapped mate of a mapped read"""
     if not rd.get('unmapped'):
-        read = G.build_read(REF, rd, name, is_read1, paired, tags)
+        read = H.build_read(_header(), _contig(place), _ref(place), rd, name, is_read1, paired, tags)
         if mate is not None and mate.get('unmapped'):
             read.is_proper_pair = False
             read.mate_is_unmapped = True
         return read
-    read = pysam.AlignedSegment(G.header(len(REF)))
-    read.query_name = name
-    read.query_sequence = rd['seq']
-    read.query_qualities = pysam.qualitystring_to_array(''.join(chr(33 + q) for q in rd['quals']))
-    read.is_unmapped = True
-    read.is_paired = True
-    read.is_read1 = bool(is_read1)
-    read.is_read2 = not is_read1
-    read.mapping_quality = 0
-    read.reference_name = G.CONTIG           # placed at the mate, SAM convention
-    read.reference_start = rd['start']
-    for k, v in tags.items():
-        read.set_tag(k, v)
-    return read
+    return H.build_unmapped_read(_header(), _contig(place), rd, name, is_read1, tags)
 
 
-def build_reads(fd, name, tags):
+def build_reads(fd, name, tags, place=None):
     r1, r2 = fd['r1'], fd.get('r2')
     if r2 is None or (_mapped(r1) and _mapped(r2)):
-        return G.build_reads(REF, fd, name, tags)
-    a = _build_read(r1, name, True, True, tags, mate=r2)
-    b = _build_read(r2, name, False, True, tags, mate=r1)
+        return H.build_reads(_header(), _contig(place), _ref(place), fd, name, tags)
+    a = _build_read(r1, name, True, True, tags, mate=r2, place=place)
+    b = _build_read(r2, name, False, True, tags, mate=r1, place=place)
     for x, y in ((a, b), (b, a)):
         x.next_reference_id = y.reference_id
         x.next_reference_start = y.reference_start
@@ -344,7 +391,19 @@ def expected_call(ob):
             return 'dominating', b1
         if _dominates(q2, q1):
             return 'dominating', b2
-    return 'open', None
+        return 'open', None
+    # three or more different bases at one position (a second alternative base): the same model-independent consequences -
+    # one base whose evidence strictly dominates that of EVERY other base is the most likely call; several bases carrying
+    # identical evidence, each of which dominates every remaining base, are equally most likely: undecidable
+    items = sorted(by.items())
+    tag = f'[{len(items)}-bases]'
+    for b, q in items:
+        if all(_dominates(q, q2) for b2, q2 in items if b2 != b):
+            return 'dominating' + tag, b
+    top = [b for b, q in items if all(q == q2 or _dominates(q, q2) for b2, q2 in items if b2 != b)]
+    if len(top) >= 2:
+        return 'symmetric' + tag, 'N'
+    return 'open' + tag, None
 
 
 def expected_TR(case):
@@ -408,6 +467,9 @@ def check_records(case, frags, records, site, n_source_written=None, expected_DS
     out = []
     obs = observations(frags)
     coverage = set(obs)
+    refseq = _ref(case.get('place'))
+    if contig is None:
+        contig = _contig(case.get('place'))
     if not records:
         return [(f'{site}:no-consensus-record', None)]
     seen = set()
@@ -427,7 +489,7 @@ def check_records(case, frags, records, site, n_source_written=None, expected_DS
         if any(op not in (0, 3) for op, n in cig) or any(n <= 0 for op, n in cig):
             out.append((f'{site}:unexpected-cigar-operation', desc))
             continue
-        if rec.reference_name != (contig or G.CONTIG):
+        if rec.reference_name != contig:
             out.append((f'{site}:wrong-contig', desc))
         # own CIGAR walk
         pairs = []
@@ -449,7 +511,7 @@ def check_records(case, frags, records, site, n_source_written=None, expected_DS
             out.append((f'{site}:md-missing', desc))
         else:
             rebuilt = reference_from_md(rec.get_tag('MD'), [seq[qi] for qi, _ in pairs])
-            truth = [REF[p] if 0 <= p < len(REF) else '?' for p in positions]
+            truth = [refseq[p] if 0 <= p < len(refseq) else '?' for p in positions]
             if rebuilt is None or [b.upper() for b in rebuilt] != truth:
                 gapped = any(op == 3 for op, n in cig)
                 out.append((f"{site}:md-does-not-match-reference{'[gapped-record]' if gapped else ''}",
@@ -462,7 +524,7 @@ def check_records(case, frags, records, site, n_source_written=None, expected_DS
             if p not in obs:
                 continue
             kind, want = expected_call(obs[p])
-            if kind != 'open' and seq[qi] != want:
+            if not kind.startswith('open') and seq[qi] != want:
                 out.append((f'{site}:base-call:{kind}-evidence-not-called', {'record': desc, 'position': p, 'observations': obs[p], 'got': seq[qi], 'expected': want}))
         # tags
         for tag, want in (('SM', sample or SAMPLE), ('RX', UMI), ('TF', expected_TF if expected_TF is not None else len(frags)),
@@ -491,7 +553,7 @@ def check_records(case, frags, records, site, n_source_written=None, expected_DS
 def _site_name(case):
     api = {'dedup': 'deduplicate_majority', 'write_pysam': 'write_pysam[consensus]',
            'tagging': 'run_tagging_task[majority]', 'cli': 'bamtagmultiome[--consensus]'}[case['api']]
-    return f"{api}:{case['cls']}{_solo_label(case)}"
+    return f"{api}:{case['cls']}{_solo_label(case)}{'@contig-edge' if case.get('place') == 'edge' else ''}"
 
 
 def _strandless(case):
@@ -508,8 +570,9 @@ def _solo_label(case):
 
 
 def _build(case):
-    frags = [_letter_fragment(l, case['strand']) for l in case['letters']]
-    reads = [build_reads(fd, f'frag{i}', _tags(case['cls'])) for i, fd in enumerate(frags)]
+    place = case.get('place')
+    frags = [_letter_fragment(l, case['strand'], place) for l in case['letters']]
+    reads = [build_reads(fd, f'frag{i}', _tags(case['cls']), place) for i, fd in enumerate(frags)]
     return frags, reads
 
 
@@ -517,7 +580,7 @@ def _expected_DS(case, fragment_objects, reads):
     if _solo_label(case):
         return None     # no R1 / rejected by the class: the property names no site for such a molecule, DS is not checked
     if case['cls'] == 'nla':
-        return S_REV if case['strand'] else S_FWD
+        return (S_REV if case['strand'] else S_FWD) - (EDGE_OFF if case.get('place') == 'edge' else 0)
     if case['cls'] == 'chic':
         vals = {r[0].get_tag('DS') for r in reads if r[0].has_tag('DS')}
         if len(vals) != 1:
@@ -532,7 +595,7 @@ def run_case(case):
     site = _site_name(case)
     frags, reads = _build(case)
     mcls, fcls, fargs = _classes(case['cls'])
-    header = G.header(len(REF))
+    header = _header()
     info = {'records': 0}
     try:
         if case['api'] in ('dedup', 'write_pysam'):
@@ -644,22 +707,35 @@ _CLI_CODE = ("import sys; import singlecellmultiomics.universalBamTagger.bamtagm
 
 def cli_batch(tier):
     """The molecules of one command-line run: forward molecules on chr1, reverse ones on chr2 (two populated
-    contigs), every molecule in its own cell. -> [(strand, letters)]"""
+    contigs), the molecules that touch the first / last base of their contig on chr3 (forward) and chr4 (reverse), every
+    molecule in its own cell. -> [(strand, letters, place)]"""
     out = []
     a1, a3 = alphabet(tier, 1), alphabet(tier, 3)
-    for strand in (False, True):
-        for l in a1:
-            out.append((strand, [l]))
-        for i, j in itertools.combinations_with_replacement(range(len(a3)), 2):
-            out.append((strand, [a3[i], a3[j]]))
-        # a fragment whose R2 is unmapped next to every clean fragment shape (one molecule: strand and site come from R1)
-        for l in a1:
-            if l[1] == 'clean':
-                out.append((strand, [[0, 'r2un', 6], l]))
-        # fragments whose R1 is unmapped: rejected by the site-bearing classes, written (with a consensus request) as
-        # molecules of their own unless --no_rejects is given
-        for l in solo_alphabet(tier):
-            out.append((strand, [l]))
+    for place in PLACES:
+        for strand in (False, True):
+            for l in a1:
+                out.append((strand, [l], place))
+            if place is None or tier != 'quick':
+                for i, j in itertools.combinations_with_replacement(range(len(a3)), 2):
+                    out.append((strand, [a3[i], a3[j]], place))
+            else:
+                # quick tier, contig edge: the two-fragment molecules over the gap shapes only
+                shapes = [l for l in a3 if l[1] == 'clean']
+                for i, j in itertools.combinations_with_replacement(range(len(shapes)), 2):
+                    out.append((strand, [shapes[i], shapes[j]], place))
+            # a fragment whose R2 is unmapped next to every clean fragment shape (one molecule: strand and site come from R1)
+            for l in a1:
+                if l[1] == 'clean':
+                    out.append((strand, [[0, 'r2un', 6], l], place))
+            # fragments whose R1 is unmapped: rejected by the site-bearing classes, written (with a consensus request) as
+            # molecules of their own unless --no_rejects is given
+            for l in solo_alphabet(tier):
+                out.append((strand, [l], place))
+            if place is None:
+                # every insertion order of the single-end fragment words that show three different bases at one position
+                # (reads of equal start keep their file order, so the file order is the association order)
+                for w in conflict_words('cli-' + tier):
+                    out.append((strand, w, place))
     return out
 
 
@@ -673,18 +749,17 @@ def run_cli_batch(tier, cls, nosrc):
     batch = cli_batch(tier)
     _fasta()
     d = tempfile.mkdtemp(dir=_STATE['dir'], prefix=f'cli_{os.getpid()}_')
-    contigs = [G.CONTIG, 'chr2']
     try:
         all_reads = []
         per_mol = []
-        for i, (strand, letters) in enumerate(batch):
+        for i, (strand, letters, place) in enumerate(batch):
             tags = dict(_tags(cls), SM=f'CELL_{i}')
-            frags = [_letter_fragment(l, strand) for l in letters]
-            rls = [build_reads(fd, f'm{i}_{j}', tags) for j, fd in enumerate(frags)]
+            frags = [_letter_fragment(l, strand, place) for l in letters]
+            rls = [build_reads(fd, f'm{i}_{j}', tags, place) for j, fd in enumerate(frags)]
             for rl in rls:
                 for r in rl:
                     if r is not None:
-                        r.reference_id = 1 if strand else 0
+                        r.reference_id = H.CONTIGS.index(_contig(place, strand, cli=True))
                 if rl[1] is not None:
                     a, b = rl
                     a.next_reference_id, a.next_reference_start, a.mate_is_reverse = b.reference_id, b.reference_start, b.is_reverse
@@ -693,7 +768,7 @@ def run_cli_batch(tier, cls, nosrc):
             per_mol.append((frags, rls))
         all_reads.sort(key=lambda r: (r.reference_id, r.reference_start))
         inb, outb = os.path.join(d, 'in.bam'), os.path.join(d, 'out.bam')
-        with pysam.AlignmentFile(inb, 'wb', header=G.header(len(REF))) as o:
+        with pysam.AlignmentFile(inb, 'wb', header=_header()) as o:
             for r in all_reads:
                 o.write(r)
         pysam.index(inb)
@@ -735,9 +810,11 @@ def run_cli_batch(tier, cls, nosrc):
                     src[int(m.group(1))] = src.get(int(m.group(1)), 0) + 1
                 else:
                     stray.append(rec.to_string())
-        for i, (strand, letters) in enumerate(batch):
+        for i, (strand, letters, place) in enumerate(batch):
             case = {'api': 'cli', 'cls': cls, 'strand': strand, 'letters': letters, 'no_source_reads': nosrc,
                     'max_N_span': None, 'tier': tier, 'index': i}
+            if place:
+                case['place'] = place
             site = _site_name(case)
             frags, rls = per_mol[i]
             info = {'records': len(cons.get(i, []))}
@@ -748,10 +825,10 @@ def run_cli_batch(tier, cls, nosrc):
                 if _solo_label(case):
                     pass
                 elif cls == 'nla':
-                    ds = S_REV if strand else S_FWD
+                    ds = (S_REV if strand else S_FWD) - (EDGE_OFF if place == 'edge' else 0)
                 elif cls == 'chic':
                     _, fcls, fargs = _classes(cls)
-                    fresh = [build_reads(fd, 'x', _tags(cls)) for fd in frags]
+                    fresh = [build_reads(fd, 'x', _tags(cls), place) for fd in frags]
                     vals = set()
                     for rl in fresh:
                         fcls(rl, **fargs)
@@ -760,7 +837,7 @@ def run_cli_batch(tier, cls, nosrc):
                         raise HarnessError(f'CHIC source reads do not share one DS tag: {vals}')
                     ds = vals.pop()
                 viols = check_records(case, frags, cons.get(i, []), site, n_source_written=src.get(i, 0),
-                                      expected_DS=ds, sample=f'CELL_{i}', contig=contigs[1 if strand else 0])
+                                      expected_DS=ds, sample=f'CELL_{i}', contig=_contig(place, strand, cli=True))
                 if i == 0 and stray:
                     viols.append((f'{site}:output-record-not-attributable-to-a-molecule', stray[:3]))
             obs = observations(frags)
@@ -789,7 +866,18 @@ def bounds(tier):
             'variants_level_3': [v for v in dict.fromkeys(l[1] for l in alphabet(tier, 3))],
             'solo_letters': solo_alphabet(tier),
             'strandless_molecule_max_fragments': {'plain': 2 if tier == 'quick' else 3, 'nla': 1, 'chic': 1},
-            'write_pysam_callback': ['none', 'plain', 'kwargs (one-letter words)']}
+            'write_pysam_callback': ['none', 'plain', 'kwargs (one-letter words)'],
+            'contigs': {'chr1/chr2': len(REF), 'chr3/chr4 (= [first CATG .. last CATG] of chr1)': len(EDGE)},
+            'placements': ['interior', 'edge (forward molecules start on coordinate 0, reverse molecules end on the last base)'],
+            'edge_levels': [1, 2] if tier == 'quick' else [1, 2, 3],
+            'edge_letters_level_2': len(edge_alphabet(tier, 2)),
+            'edge_configs_level_2': 'dedup x max_N_span, write_pysam without source reads, tagging with source reads' if tier == 'quick' else 'as interior',
+            'insertion_orders': ('both orders of every two-fragment word (dedup)' if tier == 'quick' else
+                                 'every distinct order of every two-fragment word and of every interior three-fragment word (dedup)') +
+                                '; every ordered word of the conflict letters with >= 3 different bases at one position',
+            'conflict_letters': conflict_alphabet(tier), 'conflict_words_ordered': len(conflict_words(tier)),
+            'conflict_words_ordered_cli': len(conflict_words('cli-' + tier)),
+            'qualities_second_alternative_base': sorted(MM1_SECOND.values())}
 
 
 def _configs(cls, level):
@@ -806,6 +894,46 @@ def _configs(cls, level):
 N_PART = 8
 
 
+# ---- fragment words whose insertion order is enumerated ----------------------------------------------
+CONFLICT_VARIANTS = ('clean', 'cleanq50', 'mm1lo', 'mm1hi', 'mm1q60', 'mm1lo2', 'mm1mid2', 'mm1hi2')
+_CONFLICT_CACHE = {}
+
+
+def conflict_alphabet(mode):
+    """letters whose fragments differ only in what they show at the mismatch position: the reference base (q30 / q50), the
+    first alternative base (q10 / q30 / q60) or the second alternative base (q10 / q20 / q30); thorough: also as pairs with
+    adjacent mates and with OVERLAPPING mates (R2 then shows the reference base at that position as well)"""
+    if mode == 'cli-quick':
+        return [[None, v, 6] for v in ('clean', 'mm1lo', 'mm1hi', 'mm1lo2', 'mm1hi2')]
+    if mode in ('quick', 'cli-thorough'):
+        return [[None, v, 6] for v in CONFLICT_VARIANTS]
+    return [[gap, v, 6] for gap in (None, 0, -2) for v in CONFLICT_VARIANTS]
+
+
+def conflict_words(mode):
+    """EVERY ordered word (= every distinct insertion order of every multiset) of 2..3 conflict letters whose molecule
+    observes one position with >= 3 different bases"""
+    if mode in _CONFLICT_CACHE:
+        return _CONFLICT_CACHE[mode]
+    alpha = conflict_alphabet(mode)
+    shown = [frozenset(b for b, _ in observations([_letter_fragment(l, False)]).get(S_FWD + 5, [])) for l in alpha]
+    out = []
+    for n in (2, 3):
+        for idx in itertools.product(range(len(alpha)), repeat=n):
+            if len(frozenset().union(*(shown[i] for i in idx))) >= 3:
+                out.append([alpha[i] for i in idx])
+    _CONFLICT_CACHE[mode] = out
+    return out
+
+
+def edge_alphabet(tier, level):
+    """letters of the molecules that touch the first / last base of their contig: thorough = the whole alphabet; quick =
+    the whole alphabet for one-fragment molecules, the three-fragment alphabet plus the audit letters for two-fragment ones"""
+    if tier != 'quick' or level == 1:
+        return alphabet(tier, level)
+    return alphabet(tier, 3) + [[0, 'r2un', 6], [None, 'del1', 6], [0, 'del1', 6], [None, 'clip', 6]]
+
+
 def shards(tier):
     out = [('cli', cls, nosrc) for cls in CLI_CLASSES for nosrc in (False, True)]
     for cls in CLASSES:
@@ -818,6 +946,22 @@ def shards(tier):
                 parts = 1 if level == 1 else N_PART
                 for part in range(parts):
                     out.append((cls, strand, level, part, parts))
+    # (appended by the audit waves: the shards above keep their index)
+    for cls in CLASSES:
+        for strand in (False, True):
+            parts = 1 if tier == 'quick' else N_PART
+            for part in range(parts):
+                out.append(('orders', cls, strand, part, parts))
+    for cls in CLASSES:
+        for strand in (False, True):
+            for level in ((1, 2) if tier == 'quick' else (1, 2, 3)):
+                if cls == 'plain' and level == 3:
+                    continue
+                parts = 1 if level == 1 else N_PART
+                for part in range(parts):
+                    out.append((cls, strand, level, part, parts, 'edge'))
+    for cls in CLASSES:
+        out.append(('solo', cls, 'edge'))
     return out
 
 
@@ -826,63 +970,95 @@ def _outcome(api, info):
             f":conflict={'+'.join(info['conflict']) or 'none'}")
 
 
+def _report(acc, case, label=None, nontrivial=None, sig_map=None):
+    viols, info = run_case(case)
+    if sig_map:
+        viols = [(sg.replace(sig_map[0], sig_map[1], 1), d) for sg, d in viols]
+    acc.case(case, transitions=1 + info['records'],
+             nontrivial=(info['gapped'] or bool(info['conflict'])) if nontrivial is None else nontrivial,
+             outcome=(label(info) if label else _outcome(case['api'], info)))
+    for sig, d in viols:
+        acc.violation(sig, case, d)
+
+
+def _edge_label(place, text):
+    return ('edge:' + text) if place == 'edge' else text
+
+
 def run_shard(shard, tier, acc):
     if shard[0] == 'cli':
         for case, viols, info in run_cli_batch(tier, shard[1], shard[2]):
             acc.case(case, transitions=1 + info['records'], execs=0, nontrivial=info['gapped'] or bool(info['conflict']),
-                     outcome=_outcome('cli', info))
+                     outcome=_edge_label(case.get('place'), _outcome('cli', info)))
             for sig, d in viols:
                 acc.violation(sig, case, d)
         acc.execs += 1
         return
     if shard[0] == 'solo':
-        _run_solo(shard[1], tier, acc)
+        _run_solo(shard[1], tier, acc, shard[2] if len(shard) > 2 else None)
         return
-    cls, strand, level, part, parts = shard
-    alpha = alphabet(tier, level)
+    if shard[0] == 'orders':
+        _run_orders(shard[1], shard[2], shard[3], shard[4], tier, acc)
+        return
+    cls, strand, level, part, parts = shard[:5]
+    place = shard[5] if len(shard) > 5 else None
+    thin = place == 'edge' and tier == 'quick' and level >= 2      # the quick tier's slice of the contig-edge dimension
+    alpha = alphabet(tier, level) if place is None else edge_alphabet(tier, level)
+    base = {'place': place} if place else {}
+    configs = _configs(cls, level)
+    if thin:
+        configs = [('dedup', None, None), ('dedup', MAX_N_SPAN, None), ('write_pysam', None, True)]
+        if cls != 'plain':
+            configs.append(('tagging', None, False))
     for idx, combo in enumerate(itertools.combinations_with_replacement(range(len(alpha)), level)):
         if idx % parts != part:
             continue
         letters = [alpha[i] for i in combo]
-        for api, mns, nosrc in _configs(cls, level):
-            case = {'cls': cls, 'strand': strand, 'letters': letters, 'api': api, 'max_N_span': mns}
+        for api, mns, nosrc in configs:
+            case = dict(base, cls=cls, strand=strand, letters=letters, api=api, max_N_span=mns)
             if nosrc is not None:
                 case['no_source_reads'] = nosrc
-            viols, info = run_case(case)
-            outcome = (f"{api}:records={info['records']}:gap={'none' if not info['gapped'] else ('>max' if info['max_gap'] > MAX_N_SPAN else '<=max')}"
-                       f":conflict={'+'.join(info['conflict']) or 'none'}")
-            acc.case(case, transitions=1 + info['records'], nontrivial=info['gapped'] or bool(info['conflict']), outcome=outcome)
-            for sig, d in viols:
-                acc.violation(sig, case, d)
+            _report(acc, case, label=lambda info, api=api: _edge_label(place, _outcome(api, info)))
         if level == 1:
             # write_pysam's consensus_read_callback option (without / with keyword arguments): the records written are the same
             for cbk in ('plain', 'kwargs'):
-                case = {'cls': cls, 'strand': strand, 'letters': letters, 'api': 'write_pysam', 'max_N_span': None,
-                        'no_source_reads': True, 'callback': cbk}
-                viols, info = run_case(case)
-                viols = [(sg.replace('write_pysam[consensus]', 'write_pysam[consensus,callback]', 1), d) for sg, d in viols]
-                acc.case(case, transitions=1 + info['records'], nontrivial=info['gapped'] or bool(info['conflict']),
-                         outcome=f"callback-{cbk}:" + _outcome('write_pysam', info))
-                for sig, d in viols:
-                    acc.violation(sig, case, d)
-        if level >= 2:
-            case = {'cls': cls, 'strand': strand, 'letters': letters, 'api': 'dedup', 'max_N_span': None, 'incremental': True}
-            viols, info = run_case(case)
-            viols = [(sg.replace('deduplicate_majority', 'deduplicate_majority:after-an-earlier-consensus-request', 1), d) for sg, d in viols]
-            acc.case(case, transitions=1 + info['records'], nontrivial=True, outcome=f"dedup:incremental:records={info['records']}")
-            for sig, d in viols:
-                acc.violation(sig, case, d)
-        if level >= 2 and cls != 'plain':
+                case = dict(base, cls=cls, strand=strand, letters=letters, api='write_pysam', max_N_span=None,
+                            no_source_reads=True, callback=cbk)
+                _report(acc, case, label=lambda info, cbk=cbk: _edge_label(place, f"callback-{cbk}:" + _outcome('write_pysam', info)),
+                        sig_map=('write_pysam[consensus]', 'write_pysam[consensus,callback]'))
+        if level >= 2 and not thin:
+            case = dict(base, cls=cls, strand=strand, letters=letters, api='dedup', max_N_span=None, incremental=True)
+            _report(acc, case, label=lambda info: _edge_label(place, f"dedup:incremental:records={info['records']}"), nontrivial=True,
+                    sig_map=('deduplicate_majority', 'deduplicate_majority:after-an-earlier-consensus-request'))
+        if level >= 2 and cls != 'plain' and not thin:
             # a fragment cap smaller than the number of fragments offered: the consensus is made of the fragments the molecule
             # holds, its fragment-count tag still counts every fragment of the molecule (as on the source reads)
-            case = {'cls': cls, 'strand': strand, 'letters': letters, 'api': 'dedup', 'max_N_span': None, 'cap': level - 1}
-            viols, info = run_case(case)
-            acc.case(case, transitions=1 + info['records'], nontrivial=True, outcome=f"dedup:capped:records={info['records']}")
-            for sig, d in viols:
-                acc.violation(sig, case, d)
+            case = dict(base, cls=cls, strand=strand, letters=letters, api='dedup', max_N_span=None, cap=level - 1)
+            _report(acc, case, label=lambda info: _edge_label(place, f"dedup:capped:records={info['records']}"), nontrivial=True)
+        if level == 2 or (level == 3 and tier != 'quick' and place is None):
+            # the other insertion orders of the same fragments (the words above are enumerated as multisets, simplest letter
+            # first): two-fragment molecules in both orders, thorough also all distinct orders of three fragments
+            for perm in sorted(set(itertools.permutations(combo)))[1:]:
+                case = dict(base, cls=cls, strand=strand, letters=[alpha[i] for i in perm], api='dedup', max_N_span=None)
+                _report(acc, case, label=lambda info: _edge_label(place, 'reordered:' + _outcome('dedup', info)))
 
 
-def _run_solo(cls, tier, acc):
+def _run_orders(cls, strand, part, parts, tier, acc):
+    """every insertion order of the fragment words that show >= 3 different bases at one position"""
+    configs = [('dedup', None, None), ('write_pysam', None, True)]
+    if cls != 'plain':
+        configs.append(('tagging', None, False))
+    for idx, letters in enumerate(conflict_words(tier)):
+        if idx % parts != part:
+            continue
+        for api, mns, nosrc in configs:
+            case = {'cls': cls, 'strand': strand, 'letters': letters, 'api': api, 'max_N_span': mns}
+            if nosrc is not None:
+                case['no_source_reads'] = nosrc
+            _report(acc, case, label=lambda info, api=api: 'orders:' + _outcome(api, info), nontrivial=True)
+
+
+def _run_solo(cls, tier, acc, place=None):
     """One-fragment molecules of every solo letter; for the plain classes also the molecules of 2 (thorough: 3) fragments
     all of which lack R1 (the plain classes group them; `strand` is then only the orientation of the mapped R2)."""
     solo = solo_alphabet(tier)
@@ -898,11 +1074,13 @@ def _run_solo(cls, tier, acc):
             for letters in words:
                 for api, mns, nosrc in configs:
                     case = {'cls': cls, 'strand': strand, 'letters': letters, 'api': api, 'max_N_span': mns}
+                    if place:
+                        case['place'] = place
                     if nosrc is not None:
                         case['no_source_reads'] = nosrc
                     viols, info = run_case(case)
                     acc.case(case, transitions=1 + info['records'], nontrivial=True,
-                             outcome=_solo_label(case)[1:-1] + ':' + _outcome(api, info))
+                             outcome=_edge_label(place, _solo_label(case)[1:-1] + ':' + _outcome(api, info)))
                     for sig, d in viols:
                         acc.violation(sig, case, d)
 
@@ -912,7 +1090,7 @@ def replay(case):
         # a command-line case is one molecule of a batch run: re-run that batch, look at that molecule
         res = run_cli_batch(case['tier'], case['cls'], bool(case.get('no_source_reads')))
         got = res[case['index']]
-        if got[0]['letters'] != case['letters'] or got[0]['strand'] != case['strand']:
+        if got[0]['letters'] != case['letters'] or got[0]['strand'] != case['strand'] or got[0].get('place') != case.get('place'):
             raise HarnessError('command-line batch layout changed; cannot replay this case')
         return got[1]
     viols, _ = run_case(case)
